@@ -32,6 +32,7 @@ def jobs(tier, seed):
         for way in (0, 1):
             for k in (0, 1, 2):
                 out.append({'entry': 'h_c11_misc', 'harness': 'h_c11.cpp', 'name': 'trailing-spaces', 'cfg': {'what': 1, 'way': way, 'spaces': k, 'point': point, 'len': 2}})
+                out.append({'entry': 'h_c11_misc', 'harness': 'h_c11.cpp', 'name': 'trailing-spaces', 'cfg': {'what': 1, 'way': way, 'spaces': k, 'point': point, 'len': 0}})    # the name is only spaces
     return out
 
 def event_file(concrete_seed=None):
